@@ -149,6 +149,11 @@ class SymProvider:
 
         if lo is None and hi is None:
             return
+        if not hasattr(v, "var"):  # the proxy came back concrete
+            if (lo is not None and not (v > lo if lo_open else v >= lo)) or \
+                    (hi is not None and not (v < hi if hi_open else v <= hi)):
+                raise OutOfBounds("concrete value outside the stated range")
+            return
         with NoTracing():
             space = context_statespace()
             var = v.var
